@@ -12,6 +12,12 @@ Line protocol of C17 (all lists `,`-separated, `-` = empty):
   `cert-signer: acme`, 2 = `kubernetes.io/tls-acme: "true"` with `AcmeTrackTLSAnn`)
   the three of them `=> <adds>^<removes>;...#<items>` (one `adds^removes` per AcmeUpdate, items
   `|`-separated, an item is the queue string `name,chain,d1,d2`, final storages after `#`)
+* `inst <cycle;cycle;...>` with `<p|f><leader><acct><chg><r|x|s>/<dirty>/<name:chain:doms+...>`: the
+  controller cycle converter ; `AcmeUpdate()` ; `HAProxyUpdate()`. `chg` = the sync also changes the
+  HAProxy configuration (a reload is needed), `r` = a reload attempted in this cycle succeeds, `x` = the
+  new worker fails to start, `s` = the master socket refuses the command
+  `=> <adds>^<removes>^<n|r|x><failing>;...#<items>`: `n` no reload attempted, `r` reloaded, `x` reload
+  failed; `failing` = `failedSince` is set after the update
 -/
 namespace HapVerif.C17
 open HapVerif.Drv
@@ -173,6 +179,50 @@ def oracleCycles : Storages → List Cycle → List (List QOp) → Option String
     | some e => some e
     | none => oracleCycles s' cs os
 
+/-! controller cycles -/
+
+def parseICycle (s : String) : Option ICycle :=
+  match s.splitOn "/" with
+  | [h, d, as] =>
+    match h.toList with
+    | [k, l, a, g, r] => do
+      let (full, l, a) ← parseHead (String.ofList [k, l, a])
+      let chg ← parseBool g.toString
+      let rfail ← if r = 'r' then some false else if r = 'x' ∨ r = 's' then some true else none
+      pure { c := { full := full, leader := l, acct := a, dirty := parseStrs d,
+                    acqs := ← parseList parseAcq as "+" },
+             chg := chg, rfail := rfail }
+    | _ => none
+  | _ => none
+
+def showReload : Reload → String
+  | .none => "n"
+  | .ok => "r"
+  | .failed => "x"
+
+def showIRun (outs : List (List QOp × Reload × Bool)) (items : SMap) : String :=
+  ";".intercalate (outs.map (fun o => showUpd o.1 ++ "^" ++ showReload o.2.1 ++ showB o.2.2)) ++
+    "#" ++ showItems items
+
+def parseIUpd (s : String) : Option (List QOp × Reload × Bool) :=
+  match s.splitOn "^" with
+  | [a, r, f] => do
+    let ops ← parseUpd (a ++ "^" ++ r)
+    match f.toList with
+    | [o, b] => do
+      let o ← if o = 'n' then some Reload.none else if o = 'r' then some Reload.ok
+              else if o = 'x' then some Reload.failed else none
+      pure (ops, o, ← parseBool b.toString)
+    | _ => none
+  | _ => none
+
+def parseIRun (s : String) : Option (List (List QOp × Reload × Bool) × SMap) :=
+  match s.splitOn "#" with
+  | [u, i] => do
+    let us ← if u = "" then some [] else (u.splitOn ";").mapM parseIUpd
+    pure (us, ← parseItems i)
+  | _ => none
+
 def handle (args : List String) (impl : String) : Verdict :=
   match args with
   | ["verify", acct, sec, now, win, decl, sign, setErr] =>
@@ -207,6 +257,17 @@ def handle (args : List String) (impl : String) : Verdict :=
       { model := showRun r.2 r.1.items, agree := agreeRun r.2 r.1.items impl, oracle := orc,
         trivial := r.2.all (·.isEmpty) }
     | none => bad "parse-cyc"
+  | ["inst", cs] =>
+    match parseList parseICycle cs ";" with
+    | some cs =>
+      let r := runI .always {} cs
+      let model := showIRun r.2 r.1.st.items
+      match parseIRun impl with
+      | some (us, it) =>
+        { model := model, agree := model == showIRun us it,
+          oracle := oracleICycles {} cs (us.map (·.1)), trivial := r.2.all (·.1.isEmpty) }
+      | none => { model := model, agree := false, oracle := some "panic-instance-cycles" }
+    | none => bad "parse-inst"
   | ["conv", cs] =>
     match parseList parseConvCycle cs "|" with
     | some cs =>
